@@ -3,7 +3,7 @@ CONSTANTS
   MaxHn = 3
   Bug = ""
   Alphabet <- AlphabetThorough
-  MaxLen = 5
+  MaxLen = 4
   LH = 1
   RH = 1
   Devs <- NoDevs
